@@ -95,7 +95,7 @@ def gen_case(rng, tier):
         k = rng.choice([1, 2, 2, 3, 3, 4])
         bases.append(sorted(rng.sample(range(len(uni)), min(k, len(uni)))))
     ops = []
-    for _ in range(rng.randint(6, 30)):
+    for _ in range(rng.randint(6, 30) if rng.random() >= 0.03 else rng.randint(80, 200)):
         r = rng.random()
         if r < 0.82:
             ops.append({"op": "verdict", "basis": rng.randrange(nb), "entry": rng.choice(ENTRY),
